@@ -275,7 +275,7 @@ func checkThrottlePassThrough(w *World, r *Report, runs *throttleRuns, rule stri
 // ---------------------------------------------------------------------------------------
 
 func propC05(w *World, r *Report) {
-	r.Explanation = "Decided clause (necessary structure of the bound, not the inequality): (T1) every frame forwarded to the wrapped recorder is dominated, in every reachable state, by a successful TakeAvailable(1) on the throttler's bucket — one token per frame — and nothing else in the program takes or adds tokens; (T2) the bucket is built with capacity int64(BucketSize.Seconds())*FPS and rate (minSeconds*FPS)/MinRefill.Seconds(); (T3) when Throttler.Activate is set, handleConn hands NewMotionProcessor a ThrottledRecorder built over the file recorder with minSeconds = MinSecs+PreviewSecs, and the bare file recorder is not the motion sink on that edge; (T4) Activate/BucketSize/MinRefill come from the thermal-throttler config section. Rule: typestate fix-point decisions + normal forms + who-may-call scan + guards in handleConn."
+	r.Explanation = "Decided clause (necessary structure of the bound, not the inequality): (T1) every frame forwarded to the wrapped recorder is dominated, in every reachable state, by a successful TakeAvailable(1) on the throttler's bucket — one token per frame — and nothing else in the program takes or adds tokens; (T2) the bucket is built with capacity int64(BucketSize.Seconds())*FPS and rate (minSeconds*FPS)/MinRefill.Seconds(); (T3) when Throttler.Activate is set, handleConn hands NewMotionProcessor a ThrottledRecorder built over the file recorder with minSeconds = MinSecs+PreviewSecs, and the bare file recorder is not the motion sink on that edge; (T4) Activate/BucketSize/MinRefill come from the thermal-throttler config section. Rule: typestate fix-point decisions + normal forms + who-may-call scan + guards in handleConn. Also (T1) the forwarded frame is the first of its call: one token pays for one frame."
 	r.RuleText = "obligation per (rule, construct)"
 	r.Assumptions = []string{"the inequality itself (juju/ratelimit arithmetic, clock, quantisation) is library/numeric and not decided", "go-config's ThermalThrottler field tags map the TOML keys (dependency)"}
 	runs, err := getThrottleRuns(w)
@@ -295,6 +295,11 @@ func propC05(w *World, r *Report) {
 	for _, ev := range writes {
 		okc, bad, _, n := allCtx([]*Event{ev}, func(cx *Ctx) bool {
 			if cx.Ghosts["takes"] != 1 {
+				return false
+			}
+			// one token pays for one frame: this is the first frame handed on in this call (a write repeated after an
+			// error stores the frame twice for one token - the buffered writer's error does not mean nothing was stored)
+			if cx.Ghosts["wn:"+c.RoleNames[0]] != 1 {
 				return false
 			}
 			// the take succeeded: either decided by a comparison with 0 or known positive
